@@ -205,6 +205,12 @@ static void sign_case(size_t mlen)
     for (b = 0; b < 256; b++) { unsigned char pkn[32]; flip(pkm, pkA, 32, b); flip(pkn, pkB, 32, b); ST("pk-bit", b, smA, smB, full, pkm, pkn); }
     for (l = 0; l < full; l += (l < 80 || thorough ? 1 : 7)) ST("truncated", l, smA, smB, l, pkA, pkB);
     memcpy(x, smA, full); x[full] = 0; memcpy(y, smB, full); y[full] = 0; ST("extended", full + 1, x, y, full + 1, pkA, pkB);
+    /* the scalar half replaced by S + k*L for every k that still fits 256 bits (same value modulo the group order: a malleated tag) */
+    { static const unsigned char L_LE[32] = { 0xed,0xd3,0xf5,0x5c,0x1a,0x63,0x12,0x58,0xd6,0x9c,0xf7,0xa2,0xde,0xf9,0xde,0x14,0,0,0,0,0,0,0,0,0,0,0,0,0,0,0,0x10 }; int k, i2;
+      memcpy(x, smA, full); memcpy(y, smB, full);
+      for (k = 1; k < 16; k++) { unsigned ca = 0, cb = 0; for (i2 = 0; i2 < 32; i2++) { ca += x[32 + i2] + L_LE[i2]; x[32 + i2] = (unsigned char) ca; ca >>= 8; cb += y[32 + i2] + L_LE[i2]; y[32 + i2] = (unsigned char) cb; cb >>= 8; }
+          if (ca || cb) break;
+          ST("S+kL", k, x, y, full, pkA, pkB); } }
     /* multipart (Ed25519ph) */
     { crypto_sign_state st; unsigned char sig[64], s2[64];
       crypto_sign_init(&st); crypto_sign_update(&st, mA, mlen); crypto_sign_final_create(&st, sig, NULL, skA);
